@@ -15,7 +15,7 @@ def oracle_table(ops, lines):
         t = op.split()
         if t[0] == "tnew":
             live, mx = {}, int(t[2])
-        elif t[0] == "treg":
+        elif t[0] in ("treg", "tregn"):
             full = len(live) == mx
             if a == "abort":
                 if not full:
@@ -28,7 +28,7 @@ def oracle_table(ops, lines):
                     fails.append((i, f"token {tok} outside [1,{mx}]", None))
                 if tok in live:
                     fails.append((i, f"token {tok} issued twice", None))
-                live[tok] = int(t[1])
+                live[tok] = int(t[1]) if t[0] == "treg" else "null"
             else:
                 fails.append((i, f"unexpected result {a}", None))
         elif t[0] == "trel":
@@ -149,7 +149,7 @@ def run(chk):
         for _ in range(n):
             r = rng.random()
             if r < 0.5 or not live:
-                b.append(f"treg {rng.randrange(1, 1000)}")
+                b.append(f"treg {rng.randrange(1, 1000)}" if rng.random() < 0.9 else "tregn")
                 live.append(None)
             elif r < 0.8:
                 b.append(f"trel {rng.randrange(1, min(limit, 300) + 1)}")
